@@ -116,6 +116,17 @@ func genYXPCase(r *Rng) Case {
 	if r.Chance(30) {
 		ex["a2.augwhen"] = mk("a2", false)
 	}
+	// the when of a uses / augment may read exactly like the when the node has of its own (both are kept: they are
+	// written in different places, possibly in modules that bind the prefixes differently)
+	same := func(own, handed string) {
+		o, ok1 := ex[own].(map[string]any)
+		h, ok2 := ex[handed].(map[string]any)
+		if ok1 && ok2 && o["fault"] == "none" && h["fault"] == "none" && r.Chance(35) {
+			h["text"] = o["text"]
+		}
+	}
+	same("b.when", "m.useswhen")
+	same("a2.when", "a2.augwhen")
 	c["exprs"] = ex
 	return c
 }
